@@ -140,4 +140,45 @@ def _reach_without(f, starts, target, edges):
 def run(ctx):
     guarded_increments(ctx, 'C05.R1', 'concurrency counters move only behind their limit check (same function, true edge)', GUARDED, 3)
     r2_single_decrement(ctx)
+    r3_transition_discipline(ctx)
     r4_refusal(ctx)
+
+
+ENTRY_OWNERS = [P + 'streams::Streams::', P + 'streams::StreamRef::', P + 'streams::OpaqueStreamRef::', P + 'streams::DynStreams::',
+                '<' + P + 'streams::Streams as std::ops::Drop>::', '<' + P + 'streams::OpaqueStreamRef as std::ops::Drop>::', '<share::RecvStream as std::ops::Drop>::']
+R3_EXCEPTIONS = {
+    # entry -> (reason); both reach one infeasible path: the `is_closed && is_empty` early return of Send::send_reset reached from
+    # Send::recv_stream_window_update, which returns before inc_window for send-closed streams
+}
+
+
+def r3_transition_discipline(ctx):
+    from .. import transition
+    r = ctx.rule('C05.R3', 'SUMM', 'transition discipline: no entry point returns with a stream state change that did not pass Counts::transition_after')
+    F = ctx.facts
+    D = transition.Discipline(F)
+    r.stat('candidate_functions', len(D.cands))
+    r.stat('fixpoint_iterations', D.iterations)
+    entries = sorted(n for n in F.fns if any(n.startswith(o) for o in ENTRY_OWNERS) and 'closure' not in n and '::tests::' not in n)
+    entries += [P + 'streams::drop_stream_ref']
+    r.floor(len(entries), 60, 'entry points (Streams / StreamRef / OpaqueStreamRef / DynStreams methods and Drop impls)')
+    n_dirty_fns = sum(1 for v in D.summ.values() if v)
+    r.stat('functions_that_may_return_dirty', n_dirty_fns)
+    r.floor(n_dirty_fns, 8, 'helper functions that may return with a pending state change (the rule is live)')
+    culprits = {}
+    for e in entries:
+        if e not in F.fns:
+            continue
+        if D.summ.get(e):
+            fn, ev = D.culprit(e)
+            culprits.setdefault((fn, ev), []).append(e)
+        else:
+            r.ok('entry|' + e, F.fns[e].file, 'no path returns with a pending state change' if e in D.cands else 'no state-changing event reachable')
+    for (fn, ev), es in sorted(culprits.items()):
+        f = F.fns.get(fn)
+        chain = D.explain(es[0])
+        r.bad('site|%s|%s' % (fn, ev), f.file if f else '',
+              '%s: a path from %s to a return does not pass Counts::transition_after (nor re-queues / puts back): a stream that %s is never '
+              'looked at again, so its concurrency slot / store record is not released. Reached from %d entry point(s): %s'
+              % (core.short(fn), ev, 'was popped from a connection queue' if 'pop' in ev else 'moved towards closed', len(es), ', '.join(core.short(x) for x in es[:6])),
+              witness=chain)
